@@ -136,8 +136,8 @@ def finish(ctx, checker_cmd):
         for n in ctx.notes:
             fh.write("note: %s\n" % n)
     for o in new:
-        print("FAIL %s rule=%s instance=%s at %s\n     %s" % (
-            ctx.pid, o["rule"], o["instance"], o["site"] or "-", o["detail"]))
+        print("FAIL %s rule=%s instance=%s at %s\n     %s\n     key=%s" % (
+            ctx.pid, o["rule"], o["instance"], o["site"] or "-", o["detail"], o["key"]))
     n_ob = len(ctx.obligations)
     n_ok = sum(1 for o in ctx.obligations if o["ok"])
     nontrivial = {o["key"] for o in ctx.obligations if not o["trivial"]}
